@@ -17,15 +17,16 @@ import (
 )
 
 type Clause struct {
-	Kind  string // requires ensures modifies invariant decreases
-	Label string
-	Props []string // properties this clause carries (default: function's)
-	Text  string
-	Expr  ast.Expr
-	File  string
-	Line  int
-	Pkg   string
-	Derived bool     // `derives`: follows from the ensures clauses named in From
+	Kind    string // requires ensures modifies invariant decreases
+	Label   string
+	Props   []string // properties this clause carries (default: function's)
+	Text    string
+	Expr    ast.Expr
+	File    string
+	Line    int
+	Pkg     string
+	Derived bool // `derives`: follows from the ensures clauses named in From
+	AssumedWhy string // `assumes[label] E :: reason`: a postcondition used at call sites but NOT proved (listed in the trusted base)
 	From    []string
 }
 
@@ -36,22 +37,24 @@ type LoopSpec struct {
 }
 
 type Contract struct {
-	Key      string // normalised function name
-	Pkg      string // package name the block was found in ("psatoken" or "encoding")
-	Props    []string
-	Requires []*Clause
-	Ensures  []*Clause
-	Modifies []*Clause // nil slice + ModNothing => modifies nothing
-	ModGiven bool
-	Loops    map[int]*LoopSpec
-	Assumed  bool   // dependency contract: never verified, only used
-	Trusted  string // reason if the body is not verified although in repo
-	Pure     bool
-	Allocs   string // "none" | "" (may allocate)
-	File     string
-	Line     int
-	Options  map[string]string
-	GhostSets []*GhostSet
+	alias      map[string]string // contract name -> current parameter name (one renamed parameter is tolerated)
+	aliasDone  bool
+	Key        string // normalised function name
+	Pkg        string // package name the block was found in ("psatoken" or "encoding")
+	Props      []string
+	Requires   []*Clause
+	Ensures    []*Clause
+	Modifies   []*Clause // nil slice + ModNothing => modifies nothing
+	ModGiven   bool
+	Loops      map[int]*LoopSpec
+	Assumed    bool   // dependency contract: never verified, only used
+	Trusted    string // reason if the body is not verified although in repo
+	Pure       bool
+	Allocs     string // "none" | "" (may allocate)
+	File       string
+	Line       int
+	Options    map[string]string
+	GhostSets  []*GhostSet
 	Decreases  *Clause // function-level variant for (direct) recursion
 	AllocBound *Clause // allocbound <int expr over entry values>: every sized allocation requests at most this many elements
 }
@@ -97,17 +100,17 @@ type GroundOb struct {
 }
 
 type ContractSet struct {
-	Funcs   map[string]*Contract
-	UFuns   map[string]*Spec // uninterpreted functions (no body)
-	Config  map[string][]string
-	DependsLines [][]string // config depends P Q R ...
-	GhostFields map[string]string // ghost field name -> Go type of its value ("Int", "bool", ...)
-	Axioms  []*Clause // assumed everywhere (each names the ground obligation or audit that justifies it)
-	Specs   map[string]*Spec
-	Lemmas  []*Lemma
-	Grounds []*GroundOb
-	Globals []*Clause // global invariants (assumed at every entry, proved on init)
-	Files   []string
+	Funcs        map[string]*Contract
+	UFuns        map[string]*Spec // uninterpreted functions (no body)
+	Config       map[string][]string
+	DependsLines [][]string        // config depends P Q R ...
+	GhostFields  map[string]string // ghost field name -> Go type of its value ("Int", "bool", ...)
+	Axioms       []*Clause         // assumed everywhere (each names the ground obligation or audit that justifies it)
+	Specs        map[string]*Spec
+	Lemmas       []*Lemma
+	Grounds      []*GroundOb
+	Globals      []*Clause // global invariants (assumed at every entry, proved on init)
+	Files        []string
 }
 
 var impliesRe = regexp.MustCompile(`==>`)
@@ -437,6 +440,20 @@ func (cs *ContractSet) loadFile(path string, goFile bool, pkgName string, assume
 				return err
 			}
 			cur.AllocBound = c
+		case "assumes":
+			if cur == nil {
+				return fmt.Errorf("%s:%d: assumes outside func block", path, l.line)
+			}
+			i := strings.LastIndex(rest, " :: ")
+			if i < 0 {
+				return fmt.Errorf("%s:%d: assumes[label] <expr> :: <reason>", path, l.line)
+			}
+			c, err := mkClause("ensures", label, strings.TrimSpace(rest[:i]), l.line, nil)
+			if err != nil {
+				return err
+			}
+			c.AssumedWhy = strings.TrimSpace(rest[i+4:])
+			cur.Ensures = append(cur.Ensures, c)
 		case "derives":
 			if cur == nil {
 				return fmt.Errorf("%s:%d: derives outside func block", path, l.line)
